@@ -122,6 +122,9 @@ def withRoot (ro : List Member) (p : Nat) : Option (List Member) :=
     some ((ro.set 0 (ro.getD idx r)).set idx first)
   | _, _ => none
 
+/-- the member list rotated left by `k` (what `Roster.IsRotation` recognises, tree.go:760-793) -/
+def rotl (k : Nat) (ro : List Member) : List Member := ro.drop (k % ro.length) ++ ro.take (k % ro.length)
+
 /-! ### trees (tree.go:69-97) -/
 
 /-- rose trees as first-child / next-sibling forests; a node carries the key of its server -/
@@ -209,6 +212,77 @@ def rosterId (H : HashFns) (ro : List Member) : Bytes := rosterIdOfPre H (roster
 def treeIdOfPre (H : HashFns) (rid : Bytes) (p : Bytes) : Bytes := uuid5 H (treeOuterPre rid (H.sha256 p))
 def treeId (H : HashFns) (rid : Bytes) (f : Forest) : Bytes := treeIdOfPre H rid (dfs f)
 
+/-! ### identifier values: `Equal`, `IsNil` (the one-line methods of every id type) -/
+
+/-- `uuid.Nil` -/
+def nilUuid : Bytes := List.replicate 16 0
+
+/-- `TreeID.Equal`, `RosterID.Equal`, `TokenID.Equal`, … : comparison of the sixteen bytes -/
+def idEqual (a b : Bytes) : Bool := a == b
+
+/-- `….IsNil`: equal to `uuid.Nil` -/
+def idIsNil (a : Bytes) : Bool := idEqual a nilUuid
+
+/-! ### the service factory (service.go:103-275) and the protocol table (protocol.go:57-113) -/
+
+/-- `serviceEntry`: name, the suite given at registration (its name; `none` = default suite), id -/
+structure SvcEntry where
+  name  : Bytes
+  suite : Option String
+  id    : Bytes
+  deriving DecidableEq, Repr
+
+/-- `serviceFactory.ServiceID`: the id of the first entry with that name, `NilServiceID` otherwise -/
+def svcLookupId (reg : List SvcEntry) (name : Bytes) : Bytes :=
+  match reg.find? (fun e => e.name == name) with
+  | some e => e.id
+  | none => nilUuid
+
+/-- `serviceFactory.Name`: the name of the first entry with that id, `""` otherwise -/
+def svcLookupName (reg : List SvcEntry) (id : Bytes) : Bytes :=
+  match reg.find? (fun e => idEqual id e.id) with
+  | some e => e.name
+  | none => []
+
+/-- `serviceFactory.SuiteByID` (as `Option (Option …)`: no entry / the entry's suite) -/
+def svcLookupSuite (reg : List SvcEntry) (id : Bytes) : Option (Option String) :=
+  (reg.find? (fun e => id == e.id)).map (·.suite)
+
+/-- `serviceFactory.Register`: refused (`none`, nil id) when the name already has a non-nil id,
+otherwise an entry is appended whose id is the hash **of the name** — the suite is stored with the
+entry and is no part of the identifier -/
+def svcRegister (H : HashFns) (reg : List SvcEntry) (name : Bytes) (suite : Option String) :
+    Option (List SvcEntry) × Bytes :=
+  if idIsNil (svcLookupId reg name) then
+    (some (reg ++ [{ name := name, suite := suite, id := serviceId H name }]), serviceId H name)
+  else (none, nilUuid)
+
+/-- `serviceFactory.Unregister`: the first entry with that name is removed; `none` when there is none -/
+def svcUnregister (reg : List SvcEntry) (name : Bytes) : Option (List SvcEntry) :=
+  match reg.findIdx? (fun e => e.name == name) with
+  | some i => some (reg.eraseIdx i)
+  | none => none
+
+/-- `protocolStorage.Register`: refused (nil id) when the name is registered, else stored; the id
+returned is `ProtocolNameToID name` -/
+def protoRegister (H : HashFns) (reg : List Bytes) (name : Bytes) : Option (List Bytes) × Bytes :=
+  if reg.contains name then (none, nilUuid) else (some (name :: reg), protoId H name)
+
+/-- `protocolStorage.ProtocolIDToName`: some registered name whose id is the one asked for (the code
+walks a map: which one, if several qualify, is not determined; here: the first of the list) -/
+def protoIdToName (H : HashFns) (reg : List Bytes) (id : Bytes) : Option Bytes :=
+  reg.find? (fun n => idEqual id (protoId H n))
+
+/-! ### peer-set identifiers (context.go:327-337, network/router.go:68-79) -/
+
+/-- `hash(serviceID | data)` -/
+def peerSetPre (sid data : Bytes) : Bytes := sid ++ data
+
+/-- `Context.NewPeerSetID`: the (32-byte) SHA-256 digest of the pre-image, copied into a `[32]byte` -/
+def peerSetId (H : HashFns) (sid data : Bytes) : Bytes :=
+  let d := (H.sha256 (peerSetPre sid data)).take 32
+  d ++ List.replicate (32 - d.length) 0
+
 /-! ### line-protocol driver -/
 namespace Drv
 
@@ -220,6 +294,8 @@ structure State where
   keys   : Array (Bool × Bytes) := #[]
   roster : Array Member := #[]
   rid    : Bytes := []
+  svcs   : List SvcEntry := []
+  protos : List Bytes := []
 
 def init : State := {}
 
@@ -267,6 +343,15 @@ def parsePair (s : String) : Option (Nat × Nat) :=
 def uuidArg (s : String) : Option Bytes :=
   (Util.unhex s).bind fun b => if b.length = 16 then some b else none
 
+/-- a name or other byte string in hex; a single dash is the empty string -/
+def hexName (s : String) : Option Bytes := if s = "-" then some [] else Util.unhex s
+
+/-- the suites a service can be registered with (`suites.MustFind` names); a dash = default suite -/
+def suiteArg (s : String) : Option (Option String) :=
+  if s = "-" then some none
+  else if s = "Ed25519" ∨ s = "P256" ∨ s = "bn256.G1" ∨ s = "bn256.G2" ∨ s = "bn256.adapter" ∨ s = "Residue512" then some (some s)
+  else none
+
 def step (s : State) (toks : List String) : State × String :=
   match toks with
   | "keys" :: ks =>
@@ -300,6 +385,15 @@ def step (s : State) (toks : List String) : State × String :=
       let rid := rosterId realHash r
       ({ s with roster := r.toArray, rid := rid }, showUuid rid)
     | none => (s, "bad-op")
+  -- `rotate <k>`: NewRoster of the current list rotated left by k; becomes the current roster
+  | ["rotate", k] =>
+    match k.toNat? with
+    | some k =>
+      if s.roster.isEmpty then (s, "bad-op") else
+      let r := rotl k s.roster.toList
+      let rid := rosterId realHash r
+      ({ s with roster := r.toArray, rid := rid }, showUuid rid)
+    | none => (s, "bad-op")
   -- `subset <position> <n>`: Roster.RandomSubset(List[position], n) — a random choice the model
   -- cannot name; the reply only says that the call is well-formed (the harness checks the result's id)
   | ["subset", p, n] =>
@@ -327,6 +421,51 @@ def step (s : State) (toks : List String) : State × String :=
     match Util.unhex n with
     | some n => (s, showUuid (serviceId realHash n))
     | none => (s, "bad-op")
+  -- `svcreg <name> <suite | ->`: the name is registered with the case's own service factory (after
+  -- unregistering it, if it is registered) with that suite; reply: the id and the number of entries
+  | ["svcreg", n, su] =>
+    match hexName n, suiteArg su with
+    | some n, some su =>
+      let reg := (svcUnregister s.svcs n).getD s.svcs
+      match svcRegister realHash reg n su with
+      | (some reg', id) =>
+        let back := if svcLookupName reg' id == n ∧ svcLookupSuite reg' id == some su then "back=ok" else "back=other"
+        ({ s with svcs := reg' }, showUuid id ++ s!" n={reg'.length} " ++ back)
+      | (none, _) => (s, "err:registered")
+    | _, _ => (s, "bad-op")
+  -- `svcunreg <name>`
+  | ["svcunreg", n] =>
+    match hexName n with
+    | some n =>
+      match svcUnregister s.svcs n with
+      | some reg' => ({ s with svcs := reg' }, s!"ok n={reg'.length}")
+      | none => (s, "err:unknown")
+    | none => (s, "bad-op")
+  -- `svcid <name>`: ServiceID(name) of the case's factory
+  | ["svcid", n] =>
+    match hexName n with
+    | some n => (s, showUuid (svcLookupId s.svcs n))
+    | none => (s, "bad-op")
+  -- `protoreg <name>`: the name is registered with the case's own protocol table
+  | ["protoreg", n] =>
+    match hexName n with
+    | some n =>
+      match protoRegister realHash s.protos n with
+      | (some reg', id) =>
+        let back := if protoIdToName realHash reg' id == some n then "back=ok" else "back=other"
+        ({ s with protos := reg' }, showUuid id ++ " new " ++ back)
+      | (none, _) => (s, showUuid (protoId realHash n) ++ " dup")
+    | none => (s, "bad-op")
+  -- `peerset <service id> <data>`: Context.NewPeerSetID
+  | ["peerset", sid, d] =>
+    match uuidArg sid, hexName d with
+    | some sid, some d => (s, Util.hex (peerSetId realHash sid d))
+    | _, _ => (s, "bad-op")
+  -- `ideq <a> <b>`: Equal / IsNil / String of the id types
+  | ["ideq", a, b] =>
+    match uuidArg a, uuidArg b with
+    | some a, some b => (s, s!"eq={idEqual a b} nil={idIsNil a} " ++ showUuid a)
+    | _, _ => (s, "bad-op")
   | _ => (s, "bad-op")
 
 end Drv
